@@ -225,6 +225,11 @@ class BinaryRBM(nn.Module):
             self.sample_h_given_v(v, out=h)
             self.sample_v_given_h(h, out=v)
 
+        if overwrite and v is not initial_state:
+            # `.to` had to make a copy (other dtype / device): overwriting was
+            # asked for, so the caller's tensor receives the new state
+            initial_state.copy_(v)
+
         return v
 
     def partition(self, space):
